@@ -220,6 +220,8 @@ class Field:
     list_trailing_comma: bool = False  # [0..=3, 8..=11,]
     args_trailing_comma: bool = False  # #[bits(8..=15, rw,)]
     list_split: int = 0  # > 0: the first `list_split` entries in one attribute, the rest in a second #[bits([..])]
+    list_split_other_kw: bool = False  # the second attribute of a split list uses the other keyword (bits <-> bit)
+    access_form: str = ""  # '' | 'r,w' | 'w,r': rw written as two specifiers
 
     @property
     def readable(self):
@@ -270,7 +272,10 @@ class Field:
             else:
                 kw = "bits"
                 args.append(f"{Z(lo)}..={Z(lo + n - 1)}")
-        parts = {"r": args[0], "a": self.access or None,
+        acc_txt = self.access or None
+        if self.access == "rw" and self.access_form in ("r,w", "w,r"):
+            acc_txt = self.access_form.replace(",", ", ")
+        parts = {"r": args[0], "a": acc_txt,
                  "s": (f"stride{':' if legacy else ' ='} {Z(self.array[1])}" if (self.array and self.array[2]) else None)}
         if self.attr_split and parts["a"]:
             rest = [parts[k] for k in self.arg_order if k != "a" and parts.get(k)]
@@ -284,7 +289,8 @@ class Field:
         args = [parts[k] for k in order if parts.get(k)]
         atc = "," if self.args_trailing_comma else ""
         if self.is_list() and second_list:
-            return f"#[{kw}({', '.join(args)}{atc})]" + "\n    " + f"#[{kw}({second_list})]"
+            kw2 = ({"bits": "bit", "bit": "bits"}[kw]) if self.list_split_other_kw else kw
+            return f"#[{kw}({', '.join(args)}{atc})]" + "\n    " + f"#[{kw2}({second_list})]"
         return f"#[{kw}({', '.join(args)}{atc})]"
 
     def field_ty(self) -> str:
@@ -308,7 +314,7 @@ class Field:
         return out
 
     def sig(self):
-        return (self.ty.sig(), tuple(self.ranges), self.array, self.access, self.form, self.raw_attr, self.arg_order, self.raw_ident, bool(self.doc), self.attr_split, self.doc_hidden, self.zero_pad, self.list_trailing_comma, self.list_split, self.args_trailing_comma)
+        return (self.ty.sig(), tuple(self.ranges), self.array, self.access, self.form, self.raw_attr, self.arg_order, self.raw_ident, bool(self.doc), self.attr_split, self.doc_hidden, self.zero_pad, self.list_trailing_comma, self.list_split, self.args_trailing_comma, self.list_split_other_kw, self.access_form)
 
 
 @dataclass
@@ -327,6 +333,8 @@ class Layout:
     trailing_comma: bool = False  # #[bitfield(u32, default = 1,)]
     vis: str = "pub"  # struct visibility
     via_macro: bool = False  # the declaration is stamped out by a macro_rules! helper (default passed as $d:expr)
+    macro_idents: bool = False  # stamped out by macro_rules! with the field names as $f:ident and array lengths as $n:expr
+    struct_doc: str = ""  # doc comment on the struct itself
     debug_first: bool = False  # `debug` written before `default`
 
     @property
@@ -393,22 +401,36 @@ class Layout:
         out.append(f"#[bitfield({', '.join(args)}{',' if self.trailing_comma else ''})]")
         if self.derives:
             out.append(f"#[derive({self.derives})]")
+        if self.struct_doc:
+            out.append(f"/// {self.struct_doc}")
         out.append(f"{self.vis + ' ' if self.vis else ''}struct {self.name} {{")
-        for f in self.fields:
+        mparams, margs = [], []
+        for k, f in enumerate(self.fields):
             if f.doc:
                 out.append(f"    /// {f.doc}")
             if f.doc_hidden:
                 out.append("    #[doc(hidden)]")
             out.append(f"    {f.attr(self.legacy)}")
-            out.append(f"    {'r#' if f.raw_ident else ''}{f.name}: {f.field_ty()},")
+            nm = f"{'r#' if f.raw_ident else ''}{f.name}"
+            fty = f.field_ty()
+            if self.macro_idents:
+                mparams.append(f"$f{k}:ident"); margs.append(nm)
+                nm = f"$f{k}"
+                if f.array:
+                    mparams.append(f"$n{k}:expr"); margs.append(str(f.array[0]))
+                    fty = f"[{f.ty.decl_ty()}; $n{k}]"
+            out.append(f"    {nm}: {fty},")
         out.append("}")
+        if self.macro_idents:
+            body = out[head:]
+            out = out[:head] + ["macro_rules! vmk_fields { (" + ", ".join(mparams) + ") => {"] + ["    " + l for l in body] + ["} }", "vmk_fields!(" + ", ".join(margs) + ");"]
         if macro_default is not None:
             body = out[head:]
             out = out[:head] + ["macro_rules! vmk_decl { ($d:expr) => {"] + ["    " + l for l in body] + ["} }", f"vmk_decl!({macro_default});"]
         return "\n".join(out)
 
     def sig(self):
-        return (self.base, tuple(f.sig() for f in self.fields), self.default, self.debug, self.legacy, self.const_name, self.trailing_comma, self.debug_first, self.via_macro)
+        return (self.base, tuple(f.sig() for f in self.fields), self.default, self.debug, self.legacy, self.const_name, self.trailing_comma, self.debug_first, self.via_macro, self.macro_idents, self.struct_doc)
 
     # ---- rule oracle, property C09 -------------------------------------------------------------
     def rule_valid(self) -> bool:
